@@ -723,6 +723,14 @@ func (c *diskCache) get(ctx context.Context, kind cache.EntryKind, hash string, 
 	}
 
 	uncompressedOnDisk := (kind != cache.CAS) || (c.storageMode == casblob.Identity)
+	if uncompressedOnDisk && sizeOnDisk != foundSize {
+		// There is no header to validate in this case: make sure that the
+		// backend delivered as many bytes as it announced before caching
+		// and serving them.
+		_ = rcf.Close()
+		return nil, -1, internalErr(fmt.Errorf("proxy backend delivered %d bytes for %s, expected %d",
+			sizeOnDisk, key, foundSize))
+	}
 	if uncompressedOnDisk {
 		if offset > 0 {
 			_, err = rcf.Seek(offset, io.SeekStart)
